@@ -112,7 +112,6 @@ func checkC07(w *World, r *Report) {
 	checkNilInt(w, r, tm)
 	checkEveryAuction(w, r, tm, "BB-EVERY")
 	checkModuleIface(w, r, "MOD-IFACE", "BeginBlock")
-	checkNoMut(w, r, tm, "NO-MUT")
 	// a quantity rounded up, or a payment rounded down, makes a payment exceed its reservation: the refund is negative
 	// and constructing that coin panics inside block processing
 	r.Sub(checkC04, "RD-DIR")
@@ -239,6 +238,12 @@ func priceTerm(w *World, tm *Terms, fn *ssa.Function, v ssa.Value, t *Term, dept
 					if f := w.calleeBody(&c.Call); f != nil {
 						src = f
 					}
+				}
+			}
+			// the list as its producer built it (the producer's body inlined into the term)
+			if src == nil && x.Op == "makeslice" {
+				if in, ok := x.V.(ssa.Instruction); ok && in.Parent() != nil && in.Parent() != fn {
+					src = in.Parent()
 				}
 			}
 			return src == nil
